@@ -177,3 +177,41 @@ def random_desc(rng, npk=3, nalg=6, feedback=True):
         sv = pa['svs'][0]
         ca['fb'].append(('v', pp, pk, pa['name'], sv['name'], sv['vals'][0][0]))
     return {'pkgs': {k: v for k, v in pkgs.items() if v}}
+
+
+def fan_desc(rng, feedback=True):
+    '''engines with fan-out at value level: a root with several state vectors and
+    values, children that each read a different part of it (value / sv / alg level),
+    grandchildren, an analysis at the bottom, optionally a feedback loop.'''
+    def svs(i):
+        return [{'name': f's{j}', 'vals': [(f'v{k}', (1, 0, 0)) for k in range(rng.randint(1, 3))]}
+                for j in range(rng.randint(1, 2))]
+    algs = []
+    root = {'name': 'a0', 'svs': svs(0), 'deps': [], 'fb': []}
+    algs.append(('p0', 'task', root))
+    nkids = rng.randint(2, 4)
+    for i in range(1, nkids + 1):
+        a = {'name': f'a{i}', 'svs': svs(i), 'deps': [], 'fb': []}
+        par = rng.choice([root] + [x[2] for x in algs[1:]][:1])
+        sv = rng.choice(par['svs'])
+        lvl = rng.choice(['v', 'v', 'sv', 'alg'])
+        a['deps'].append((lvl, 'p0', 'task', par['name'], sv['name'], rng.choice(sv['vals'])[0]))
+        if rng.random() < 0.3:
+            sv2 = rng.choice(root['svs'])
+            a['deps'].append(('v', 'p0', 'task', 'a0', sv2['name'], rng.choice(sv2['vals'])[0]))
+        algs.append(('p0', 'task', a))
+    for i in range(nkids + 1, nkids + 1 + rng.randint(1, 2)):
+        kind = rng.choice(['task', 'analysis', 'regress'])
+        a = {'name': f'a{i}', 'svs': svs(i), 'deps': [], 'fb': []}
+        for (pp, pk, pa) in rng.sample(algs[1:], rng.randint(1, 2)):
+            sv = rng.choice(pa['svs'])
+            a['deps'].append((rng.choice(['v', 'sv']), pp, pk, pa['name'], sv['name'], rng.choice(sv['vals'])[0]))
+        algs.append(('p1', kind, a))
+    if feedback and rng.random() < 0.4:
+        (pp, pk, pa) = algs[-1]
+        sv = pa['svs'][0]
+        root['fb'].append(('v', pp, pk, pa['name'], sv['name'], sv['vals'][0][0]))
+    pkgs = {}
+    for p, k, a in algs:
+        pkgs.setdefault(p, {}).setdefault(k, []).append(a)
+    return {'pkgs': pkgs}
